@@ -5,7 +5,11 @@ Scenario:
   {"cc": "reno" | "cubic", "n": flow size in MSS segments, "dd": [data transmission numbers to drop],
    "ad": [ACK emission numbers to drop], "fwd": [num, den], "rev": [num, den]  (constant one-way delays),
    "rtt0": [num, den] (the sender's initial rtt_estimate), "start": [num, den] (flow start time),
-   "fid": flow id, "until": horizon (simulated time)}
+   "fid": flow id, "until": horizon (simulated time),
+   "path": "wire" (default: two real Wires, FIFO) | "direct" (no delay at all: the sink's put() runs inside the sender's
+           out.put(), the sender's put() inside the sink's out.put() -- the topology `gen.out = sink; sink.out = gen`)
+           | "jitter" (each packet is delayed by its own amount fj[i] / rj[i], so packets overtake each other),
+   "finish": "none" -> the Flow keeps its default finish_time (None)}
 Only the public surface is used: the constructors, the `out` attributes (taps), put(), the public attributes
 mss / rto / last_ack / next_seq of the sender and recv_buffer of the sink.  The taps apply the drops: the i-th packet
 the sender puts on its output is discarded iff i is in dd, the i-th ACK the sink emits iff i is in ad.
@@ -57,7 +61,7 @@ def run_one(sc):
     # a sender and sink that keep answering each other for ever are cut off here and the trace ends in an X event
     limit = sc.get("cap") or 60 + 24 * n + 24 * (len(dd) + len(ad)) + n * n // 4
     premise = [True]
-    st = {"inside": False, "nfr": 0, "sender": None}
+    st = {"frames": [], "sender": None}
     sent_before = set()
 
     def log(**kw):
@@ -84,28 +88,57 @@ def run_one(sc):
             self.n += 1
             drop = self.n in dd
             seq = enc(getattr(pkt, "packet_id", None))
-            if st["inside"]:
-                st["nfr"] += 1
+            fr_ = st["frames"][-1] if st["frames"] else None
+            if fr_ is not None:
+                fr_["nfr"] += 1
             log(e="T", seq=seq, sz=enc(getattr(pkt, "size", None)), fl=enc(getattr(pkt, "flow_id", None)), n=self.n,
-                dr=int(drop), re=int(seq in sent_before), ctx=int(st["inside"]))
+                dr=int(drop), re=int(seq in sent_before), ctx=int(fr_ is not None))
             sent_before.add(seq)
+            if fr_ is not None and not fr_["done"]:
+                # a transmission from inside sender.put(ack): the sender has dealt with the ACK (that is why it transmits);
+                # its "C" record is written here, before the packet travels on -- over a path without delay everything
+                # the packet causes happens before sender.put(ack) returns
+                fr_["done"] = True
+                s_ = st["sender"]
+                log(e="C", ack=fr_["ack"], nfr=fr_["nfr"], la=enc(s_.last_ack), ns=enc(s_.next_seq))
             if not drop:
                 self.out.put(pkt)
 
     class AckTap:
-        """behind the sink: numbers the ACKs and applies the scripted drops"""
+        """behind the sink: numbers the ACKs and applies the scripted drops.  While the sink's put() is running the ACKs
+        are held and handed on right after the "S" record was written (so that the record of the arrival precedes what
+        the ACK causes further on, also on a path without any delay)"""
 
         def __init__(self, out):
             self.n = 0
             self.out = out
             self.seen = []
+            self.hold = None
 
         def put(self, pkt):
             self.n += 1
             drop = self.n in ad
             self.seen.append((enc(getattr(pkt, "ack", None)), self.n, int(drop)))
             if not drop:
-                self.out.put(pkt)
+                if self.hold is not None:
+                    self.hold.append(pkt)
+                else:
+                    self.out.put(pkt)
+
+    class Jitter:
+        """a path that delays every packet by its own scripted amount (cyclically): packets may overtake each other"""
+
+        def __init__(self, delays, out):
+            self.delays, self.out, self.i = delays, out, 0
+
+        def put(self, pkt):
+            d = self.delays[self.i % len(self.delays)]
+            self.i += 1
+            env.process(self.carry(pkt, d))
+
+        def carry(self, pkt, d):
+            yield env.timeout(d)
+            self.out.put(pkt)
 
     class SinkTap:
         """end of the data path: hands the packet to the sink and records what the sink answered"""
@@ -117,13 +150,19 @@ def run_one(sc):
         def put(self, pkt):
             seq = enc(getattr(pkt, "packet_id", None))
             before = len(self.acktap.seen)
-            self.sink.put(pkt)
+            outer, self.acktap.hold = self.acktap.hold, []
+            try:
+                self.sink.put(pkt)
+            finally:
+                held, self.acktap.hold = self.acktap.hold, outer
             new = self.acktap.seen[before:]
             if new:
                 ack, an, dr = new[-1]
             else:
                 ack, an, dr = -1, -1, -1
             log(e="S", seq=seq, ack=ack, k=len(new), n=an, dr=dr)
+            for a in held:
+                self.acktap.out.put(a)
 
     class SenderTap:
         """end of the ACK path: hands the ACK to the sender"""
@@ -132,32 +171,50 @@ def run_one(sc):
             self.sender = sender
 
         def put(self, pkt):
-            ack = enc(getattr(pkt, "ack", None))
-            st["inside"] = True
-            st["nfr"] = 0
+            frame = {"ack": enc(getattr(pkt, "ack", None)), "nfr": 0, "done": False}
+            st["frames"].append(frame)
             try:
                 self.sender.put(pkt)
             finally:
-                st["inside"] = False
-            log(e="C", ack=ack, nfr=st["nfr"], la=enc(self.sender.last_ack), ns=enc(self.sender.next_seq))
+                st["frames"].pop()
+            if not frame["done"]:
+                log(e="C", ack=frame["ack"], nfr=frame["nfr"], la=enc(self.sender.last_ack), ns=enc(self.sender.next_seq))
+            elif frame["nfr"] > 1:
+                log(e="X", type="SeveralTransmissionsForOneAck")
 
-    cfg = {"n": n, "dd": sorted(dd), "ad": sorted(ad), "timely": 0, "mss": 512, "fl": fid}
+    path = sc.get("path", "wire")
+    cfg = {"n": n, "dd": sorted(dd), "ad": sorted(ad), "timely": 0, "fifo": 0 if path == "jitter" else 1, "mss": 512, "fl": fid}
+    if path == "direct":
+        fwd = rev = 0.0
     info = {}
     try:
-        flow = Flow(flow_id=fid, src="a", dst="b", start_time=start, finish_time=float(until) * 4 + 10)
+        if sc.get("finish") == "none":
+            flow = Flow(flow_id=fid, src="a", dst="b", start_time=start)      # finish_time keeps its default
+        else:
+            flow = Flow(flow_id=fid, src="a", dst="b", start_time=start, finish_time=float(until) * 4 + 10)
         cc = TCPCubic() if sc.get("cc") == "cubic" else TCPReno()
         sender = TCPPacketGenerator(env, flow=flow, cc=cc, rtt_estimate=rtt0)
         cfg["mss"] = enc(sender.mss)
         flow.size = n * sender.mss
         st["sender"] = sender
-        w1 = Wire(env, lambda: fwd)
-        w2 = Wire(env, lambda: rev)
         sink = TCPSink(env)
-        acktap = AckTap(w2)
-        sender.out = DataTap(w1)
-        w1.out = SinkTap(sink, acktap)
+        if path == "direct":
+            acktap = AckTap(SenderTap(sender))
+            sender.out = DataTap(SinkTap(sink, acktap))
+        elif path == "jitter":
+            fj = [float(fr(x, 0)) for x in sc["fj"]]
+            rj = [float(fr(x, 0)) for x in sc["rj"]]
+            fwd, rev = max(fj), max(rj)          # for the RTT < RTO premise: the slowest packet
+            acktap = AckTap(Jitter(rj, SenderTap(sender)))
+            sender.out = DataTap(Jitter(fj, SinkTap(sink, acktap)))
+        else:
+            w1 = Wire(env, lambda: fwd)
+            w2 = Wire(env, lambda: rev)
+            acktap = AckTap(w2)
+            sender.out = DataTap(w1)
+            w1.out = SinkTap(sink, acktap)
+            w2.out = SenderTap(sender)
         sink.out = acktap
-        w2.out = SenderTap(sender)
     except BaseException as e:  # noqa
         ev.append(dict(BASE, e="X", type=type(e).__name__))
         tm.append(0)
@@ -182,8 +239,8 @@ def run_one(sc):
         except BaseException as e:  # noqa
             ev.append(dict(BASE, e="X", type=type(e).__name__))
             tm.append(env.now)
-    if not dd and not ad and premise[0]:
-        cfg["timely"] = 1
+    if not dd and not ad and premise[0] and path != "jitter":
+        cfg["timely"] = 1          # (a path that reorders may cause duplicate ACKs, hence fast retransmits: no premise there)
     info["rto_end"] = repr(getattr(sender, "rto", None))
     return {"cfg": cfg, "ev": ev, "tm": tm, "info": info}
 
